@@ -1,13 +1,263 @@
-"""C12: decided on operation histories (see DESIGN.md section 7 for what is compared and proved)."""
-from ._store import replay_store, run_store
+"""C12: validate() is clean on every reachable state and never clean on a damaged one.
 
-QUICK = [('general', 80), ('compress', 30)]
-THOROUGH = [('general', 800), ('compress', 300)]
+Lean side: `validate_clean` (Dos/Proofs/Validate.lean): the model of validate() reports nothing on every state satisfying
+the invariant, i.e. on every reachable state; `validate_sound` / `validate_sound_readable` / `damaged_never_clean`
+(Dos/Proofs/BytesProofs.lean): on ARBITRARY bytes and index rows, a clean report implies that every object reads back as
+bytes whose digest is its key and whose length is its recorded size.
+Here: (1) operation histories with validate() of the implementation compared with the model after every step (no false
+positives); (2) damage enumeration on small multi-pack containers with loose, packed, compressed and both-forms objects:
+every single-bit flip and truncation of every loose file and every pack, every perturbation of offset / length / size /
+compressed / pack_id of every index row; the ground truth (is some object now unreadable, different, or of another size?)
+is computed with sqlite3 / zlib / hashlib only and through every read path of the library."""
+from __future__ import annotations
+
+import hashlib
+import json
+import multiprocessing as mp
+import os
+import shutil
+import sqlite3
+import zlib
+
+from .. import common, store
+from ..content import gen_content
+from ..main import Report
+from ._store import run_store
+
+QUICK_HIST = [('general', 60), ('compress', 24)]
+THOROUGH_HIST = [('general', 800), ('compress', 300)]
+QUICK_DMG = 14
+THOROUGH_DMG = 200
 
 
-def run(tier: str):
-    return run_store('C12', tier, QUICK, THOROUGH)
+def build(rng, scratch):
+    dos = common.import_repo()
+    hash_type = rng.choice(['sha1', 'sha256'])
+    folder = os.path.join(scratch, 'base')
+    c = dos.Container(folder)
+    c.init_container(pack_size_target=rng.choice([60, 200, 4 * 1024 ** 3]), loose_prefix_len=rng.choice([0, 2]), hash_type=hash_type,
+                     compression_algorithm=f'zlib+{rng.choice([1, 6, 9])}')
+    objs = {}
+    contents = []
+    seen = set()
+    for _ in range(7):
+        b = gen_content(rng, rng.choice(['random', 'text', 'zeros', 'periodic']), rng.choice([0, 1, 5, 33, 120]))
+        if b not in seen:
+            seen.add(b)
+            contents.append(b)
+    # packed uncompressed, packed compressed (several packs when the target is small), loose only, loose + packed
+    ks = c.add_objects_to_pack(contents[:2], compress=False)
+    ks += c.add_objects_to_pack(contents[2:4], compress=True)
+    both = c.add_object(contents[4]) if len(contents) > 4 else None
+    if both:
+        c.pack_all_loose(compress=rng.random() < 0.5)  # not cleaned: loose and packed
+    loose = [c.add_object(b) for b in contents[5:]]
+    for b in contents:
+        objs[hashlib.new(hash_type, b).hexdigest()] = b
+    c.close()
+    # let SQLite fold the WAL into the main file so that the folder can be copied and patched freely
+    con = sqlite3.connect(os.path.join(folder, 'packs.idx'))
+    con.execute('PRAGMA wal_checkpoint(TRUNCATE)')
+    con.close()
+    return dos, folder, hash_type, objs
+
+
+def truth(dos, folder, hash_type, objs):
+    """is some object unreadable / different / of another size than recorded?  Computed (a) with stdlib only, (b) through
+    every read path of the library (single, bulk, chunked stream, seek-from-end which may use the loose copy)."""
+    from ..rawstate import Raw  # pylint: disable=import-outside-toplevel
+
+    bad = []
+    try:
+        raw = Raw(folder)
+    except Exception as exc:  # pylint: disable=broad-except
+        return [f'raw reader failed: {type(exc).__name__}']
+    rows = {r[1]: r for r in raw.rows}
+    for key, content in objs.items():
+        r = rows.get(key)
+        if r is not None:
+            (_rid, _hk, pack, off, length, comp, size) = r
+            pb = raw.pack_bytes.get(str(pack))
+            if pb is None or off < 0 or length < 0:
+                bad.append(f'{key[:8]}: row unusable')
+                continue
+            data = pb[off:off + length]
+            try:
+                plain = zlib.decompress(data) if comp else data
+            except zlib.error:
+                bad.append(f'{key[:8]}: does not inflate')
+                continue
+            if plain != content:
+                bad.append(f'{key[:8]}: packed bytes differ')
+            elif len(plain) != size:
+                bad.append(f'{key[:8]}: size {size} recorded for {len(plain)} bytes')
+        if key in raw.loose_bytes and raw.loose_bytes[key] != content:
+            bad.append(f'{key[:8]}: loose bytes differ')
+        if r is None and key not in raw.loose_bytes:
+            bad.append(f'{key[:8]}: gone')
+    # through the library
+    c = dos.Container(folder)
+    try:
+        for key, content in objs.items():
+            try:
+                if c.get_object_content(key) != content:
+                    bad.append(f'{key[:8]}: library reads other bytes')
+                m = c.get_object_meta(key)
+                if m['size'] != len(content):
+                    bad.append(f'{key[:8]}: library reports size {m["size"]}')
+                with c.get_object_stream(key) as st:
+                    st.seek(0, 2)
+                    st.seek(0)
+                    if st.read() != content:
+                        bad.append(f'{key[:8]}: library reads other bytes after seeking')
+            except Exception as exc:  # pylint: disable=broad-except
+                bad.append(f'{key[:8]}: library read raises {type(exc).__name__}')
+    finally:
+        c.close()
+    return bad
+
+
+def validates_clean(dos, folder):
+    c = dos.Container(folder)
+    try:
+        return c.validate().is_valid(), None
+    except Exception as exc:  # pylint: disable=broad-except
+        return False, type(exc).__name__
+    finally:
+        c.close()
+
+
+def damages(rng, folder, quick: bool):
+    """(description, function applying the damage to a copy)"""
+    out = []
+    files = []
+    for base, _d, fs in os.walk(os.path.join(folder, 'loose')):
+        files += [os.path.join(base, f) for f in fs]
+    packs = [os.path.join(folder, 'packs', f) for f in sorted(os.listdir(os.path.join(folder, 'packs')))]
+    for path in files + packs:
+        rel = os.path.relpath(path, folder)
+        size = os.path.getsize(path)
+        positions = list(range(size))
+        if quick and size > 40:
+            positions = sorted(set(rng.sample(positions, 40)) | {0, size - 1})
+        for pos in positions:
+            bit = rng.randrange(8)
+            out.append((f'flip bit {bit} of byte {pos} of {rel}', ('flip', rel, pos, bit)))
+        cuts = list(range(size)) if (not quick or size <= 12) else sorted(set(rng.sample(range(size), 8)) | {0, size - 1})
+        for cut in cuts:
+            out.append((f'truncate {rel} to {cut} bytes', ('trunc', rel, cut)))
+    con = sqlite3.connect(os.path.join(folder, 'packs.idx'))
+    rows = con.execute('SELECT id, offset, length, size, compressed, pack_id FROM db_object').fetchall()
+    con.close()
+    for (rid, off, length, size, comp, pack) in rows:
+        for field, val in (('offset', off + 1), ('offset', max(0, off - 1)), ('length', length + 1), ('length', max(0, length - 1)),
+                           ('size', size + 1), ('size', max(0, size - 1)), ('compressed', 0 if comp else 1), ('pack_id', pack + 1)):
+            out.append((f'row {rid}: {field} := {val}', ('row', rid, field, val)))
+    return out
+
+
+def apply_damage(folder, dmg):
+    if dmg[0] == 'flip':
+        p = os.path.join(folder, dmg[1])
+        with open(p, 'r+b') as fh:
+            fh.seek(dmg[2])
+            b = fh.read(1)
+            fh.seek(dmg[2])
+            fh.write(bytes([b[0] ^ (1 << dmg[3])]))
+    elif dmg[0] == 'trunc':
+        with open(os.path.join(folder, dmg[1]), 'r+b') as fh:
+            fh.truncate(dmg[2])
+    else:
+        con = sqlite3.connect(os.path.join(folder, 'packs.idx'))
+        con.execute(f'UPDATE db_object SET {dmg[2]} = ? WHERE id = ?', (dmg[3], dmg[1]))
+        con.commit()
+        con.execute('PRAGMA wal_checkpoint(TRUNCATE)')
+        con.close()
+
+
+def damage_case(idx: int, quick: bool = True):
+    rng = common.rng_for('C12', 'damage', idx)
+    res = {'idx': idx, 'failures': [], 'breaks': [], 'stats': {'damages': 0, 'harmful': 0, 'harmless': 0, 'kinds': {}}, 'sample': None}
+    scratch = common.mkscratch('C12')
+    try:
+        dos, base, hash_type, objs = build(rng, scratch)
+        if truth(dos, base, hash_type, objs):
+            res['breaks'].append({'where': 'the undamaged container is not intact', 'model': '', 'real': str(truth(dos, base, hash_type, objs))[:300],
+                                  'theorem_or_correspondence': 'harness', 'case': {'idx': idx}})
+            return res
+        ok, exc = validates_clean(dos, base)
+        if not ok:
+            res['failures'].append({'signature': 'false-positive', 'text': f'validate() is not clean on an undamaged container ({exc})',
+                                    'replay': {'kind': 'damage', 'idx': idx, 'seed': common.seed(), 'damage': None}})
+        work = os.path.join(scratch, 'work')
+        for desc, dmg in damages(rng, base, quick):
+            shutil.rmtree(work, ignore_errors=True)
+            shutil.copytree(base, work)
+            apply_damage(work, dmg)
+            bad = truth(dos, work, hash_type, objs)
+            res['stats']['damages'] += 1
+            res['stats']['kinds'][dmg[0]] = res['stats']['kinds'].get(dmg[0], 0) + 1
+            if not bad:
+                res['stats']['harmless'] += 1  # e.g. a padding bit of a deflate stream, an unreferenced byte: outside the property
+                continue
+            res['stats']['harmful'] += 1
+            clean, _ = validates_clean(dos, work)
+            if clean:
+                res['failures'].append({'signature': f'false-negative-{dmg[0]}', 'text': f'{desc}: {bad[0]} - but validate() returns a clean report',
+                                        'replay': {'kind': 'damage', 'idx': idx, 'seed': common.seed(), 'damage': list(dmg)}})
+                if len(res['failures']) > 3:
+                    break
+        res['sample'] = {'hash_type': hash_type, 'objects': len(objs), 'damages': res['stats']['damages'], 'harmful': res['stats']['harmful']}
+    except Exception as exc:  # pylint: disable=broad-except
+        import traceback  # pylint: disable=import-outside-toplevel
+
+        res['breaks'].append({'where': 'harness exception', 'model': '', 'real': f'{type(exc).__name__}: {exc} {traceback.format_exc()[-600:]}',
+                              'theorem_or_correspondence': 'harness', 'case': {'idx': idx}})
+    finally:
+        common.rmscratch(scratch)
+    return res
+
+
+def _dmg_job(args):
+    return damage_case(*args)
+
+
+def run(tier: str) -> Report:
+    rep = run_store('C12', tier, QUICK_HIST, THOROUGH_HIST)
+    n = QUICK_DMG if tier == 'quick' else THOROUGH_DMG
+    ctx = mp.get_context('fork')
+    with ctx.Pool(processes=min(14, os.cpu_count() or 4)) as pool:
+        results = pool.map(_dmg_job, [(i, tier == 'quick') for i in range(n)], chunksize=1)
+    for r in results:
+        rep.failures += r['failures'][:2]
+        rep.breaks += r['breaks'][:2]
+        rep.evaluations += r['stats']['damages']
+        rep.distinct_nontrivial += r['stats']['harmful']
+        for k in ('damages', 'harmful', 'harmless'):
+            rep.stats['damage.' + k] = rep.stats.get('damage.' + k, 0) + r['stats'][k]
+        for k, v in r['stats']['kinds'].items():
+            rep.stats['damage.kind.' + k] = rep.stats.get('damage.kind.' + k, 0) + v
+        if r.get('sample') and sum(1 for s in rep.samples if 'damages' in s) < 1:
+            rep.samples.append(r['sample'])
+    rep.rule += ('; plus damage enumeration: every bit position (one random bit) and truncation length of every loose and pack file of small '
+                 'multi-pack containers, and 8 perturbations of every index row; a damage counts as non-trivial when the ground truth says some '
+                 'object is unreadable / different / of another size (harmless damages - e.g. unreferenced or padding bits - are counted separately)')
+    return rep
 
 
 def replay(path: str) -> int:
-    return replay_store('C12', path)
+    doc = json.loads(open(path).read())
+    rp = doc.get('replay') or {}
+    if rp.get('kind') != 'damage':
+        from ._store import replay_store  # pylint: disable=import-outside-toplevel
+
+        return replay_store('C12', path)
+    os.environ['VERIF_SEED'] = str(rp.get('seed', 0))
+    common.build_lean()
+    r = damage_case(rp['idx'])
+    for f in r['failures']:
+        print('FAIL', f['text'])
+    if r['failures']:
+        print(f'VIOLATION property=C12 replay={path}')
+        return 1
+    return 0
